@@ -111,7 +111,8 @@ def main():
     for sig, v in sorted(known_hit.items()):
         print("KNOWN-FINDING: property=%s %s [%s; %d cases this run; e.g. %s]" % (
             pid, open_sigs[sig]["what"], sig, m["viol_sigs"].get(sig, 0), json.dumps(v["case"])[:200]))
-    rdir = os.path.join(HERE, "replays", pid)
+    OUT = os.environ.get("VERIF_OUT", HERE)   # mutant trials redirect evidence/replays away from /verif
+    rdir = os.path.join(OUT, "replays", pid)
     if real or (det is False and getattr(mod, "DETERMINISM_IS_PROPERTY", False)) or crashes:
         os.makedirs(rdir, exist_ok=True)
     for k, v in enumerate(real[:20]):
@@ -157,8 +158,8 @@ def main():
     ev = dict(property_id=pid, tier=tier, seed=seed, level=level, coverage=cov,
               assumptions=list(getattr(mod, "ASSUMPTIONS", [])), wall_s=round(time.time() - t0, 2),
               violations=len(unknown_sigs) and sum(unknown_sigs.values()) or 0)
-    os.makedirs(os.path.join(HERE, "evidence"), exist_ok=True)
-    with open(os.path.join(HERE, "evidence", pid + ".json"), "w") as fh:
+    os.makedirs(os.path.join(OUT, "evidence"), exist_ok=True)
+    with open(os.path.join(OUT, "evidence", pid + ".json"), "w") as fh:
         json.dump(ev, fh, indent=1)
     print("%s tier=%s seed=%d shards=%d evaluations=%d nontrivial=%d outcomes=%d violations=%d known=%d wall=%.1fs %s" % (
         pid, tier, seed, m["shards"], m["evaluations"], m["nontrivial"], len(m["outcomes"]),
